@@ -15,7 +15,7 @@ P("C13",
              "a time <= t, and until then an event <= t is queued and time has not passed t), c13_past_request_panics, "
              "c13_notify_now_or_earlier (after a notification the next run is at exactly the current instant), "
              "c13_notify_never_panics, c13_runs_monotone; regression lemmas for the mutations 'guard not reset in Handle' and "
-             "'<= -> <', and the MaxUint64 non-dedup witness. Tie: scripted runs (1-3 components, processors issuing requests on "
+             "'<= -> <', and the MaxUint64 non-dedup witness. Tie: scripted runs (1-3 components, optionally wired through real messaging ports and a real noc/directconnection so that notifications come from real deliveries/retrievals; processors issuing requests on "
              "themselves and each other, primary/secondary environment events, earlier/later/equal/repeated requests, past requests) "
              "projected per component and replayed step by step; holds_on re-evaluates both clauses on the observed history; c13_model_agreement_implies_property proves check_case -> holds_on.",
   level_note="Trusted: Coq kernel + vm_compute; the Go harness (engine wrapper, hooks, projection); the hand-written model of "
